@@ -123,9 +123,30 @@ def node_ranges(toks, idx):
     return None, None
 
 
+_COUNT_MEMO = {}      # s_dom (wave 6): number of values in [s, e), memoised per (tape, e): linear instead of quadratic on wide nodes
+
+
+def count_values(toks, s, e):
+    memo = _COUNT_MEMO.get((id(toks), e))
+    if memo is None or memo[0] is not toks:
+        if len(_COUNT_MEMO) > 64:
+            _COUNT_MEMO.clear()
+        memo = _COUNT_MEMO[(id(toks), e)] = (toks, {})
+    cnt = memo[1]
+    path, i = [], s
+    while i < e and i not in cnt:
+        path.append(i)
+        ce = cont_end(toks[i])
+        i = ce + 1 if ce is not None else i + 1
+    n = cnt.get(i, 0) if i < e else 0
+    for j in reversed(path):
+        n += 1
+        cnt[j] = n
+    return cnt.get(s, 0) if s < e else 0
+
+
 def rem_triple(toks, s, e):
-    vs = ref_values(toks, s, e)
-    return "%d/%d/%s" % (e - s, len(vs), vs[0] if vs else "-")
+    return "%d/%d/%s" % (e - s, count_values(toks, s, e), s if s < e else "-")
 
 
 def check_iter(ctx, case, o, toks, idx):
